@@ -603,62 +603,81 @@ def job_svgopt(res, L_, spec):
 
 
 def job_svgcolorful(res, L_, spec):
-    """per-type colours in SVG: every stroked run has the colour configured for the ISO type of the modules under it (concrete symbol, symbolic border)"""
-    from . import c09, c11
+    """per-type colours in SVG: every module is stroked exactly once in the colour configured for the ISO type of the module
+    under it (transparent = not drawn); concrete symbol, symbolic border; full 15-colour configuration and configurations
+    that only reuse the two basic colours"""
+    from . import c09
     import segno
     v = 1
     q = segno.make('C10 colourful', version=v, error='L', mask=0, boost_error=False)
     M = [[int(x) for x in r] for r in q.matrix]
     B = z3.Int('B')
-    kw = dict(c09.COLORFUL)
-
-    def run():
-        text = resolve_choices(render(L_, 'svg', M, (21, 21), dict(kw, border=SNum(B), scale=1)))
-        return READERS['svg'](text)
-    ex, paths = common.explore(run, assume=[B >= 0, B <= 6], max_paths=60, catch=(Exception,))
-    res.paths += len(paths)
     g = layout.classify(v)
     codes = {'finder': ('finder_light', 'finder_dark'), 'separator': ('separator', 'separator'), 'timing': ('timing_light', 'timing_dark'),
              'alignment': ('alignment_light', 'alignment_dark'), 'format': ('format_light', 'format_dark'), 'version': ('version_light', 'version_dark'),
              'dark': ('dark_module', 'dark_module'), 'data': ('data_light', 'data_dark')}
     W = L_.writers
+    configs = [('all-15', dict(c09.COLORFUL), dict(c09.COLORFUL))]
+    for only in (dict(separator='#000'), dict(quiet_zone='#000'), dict(finder_dark=None, finder_light='#000'), dict(light='#fff', data_light='#000')):
+        dark, light = only.get('dark', '#000'), only.get('light', None)
+        full = {k: only.get(k, dark if (k.endswith('_dark') or k == 'dark_module') else light) for k in c09.COLORFUL if k not in ('dark', 'light')}
+        configs.append((str(only), only, full))
+    for cname, callkw, full in configs:
+        def run(callkw=callkw):
+            text = resolve_choices(render(L_, 'svg', M, (21, 21), dict(callkw, border=SNum(B), scale=1)))
+            return READERS['svg'](text)
+        ex, paths = common.explore(run, assume=[B >= 0, B <= 6], max_paths=60, catch=(Exception,))
+        res.paths += len(paths)
 
-    def to_input(m):
-        return {'fn': 'colorful', 'border': m.eval(B, model_completion=True).as_long()}
-    for p in paths:
-        bt = Batch(res, p.pc)
-        if p.status != 'ok':
-            bt.holds('no-exception', f'{type(p.value).__name__}: {p.value}', z3.BoolVal(False))
-            bt.run(to_input)
-            continue
-        doc = p.value
-        # every unit cell of the page must be covered by exactly one stroke whose colour is the colour of its module type
-        r, m = check(p.pc)
-        bv = m.eval(B, model_completion=True).as_long()
-        side = 21 + 2 * bv
-        cover = {}
-        ok = True
-        for (x1, ym, x2, wd, colour) in doc['segments']:
-            vals = [m.eval(t, model_completion=True) for t in (x1, ym, x2)]
-            fx1, fy, fx2 = (Fraction(vv.numerator_as_long(), vv.denominator_as_long()) for vv in vals)
-            row = int(fy - Fraction(1, 2))
-            for c in range(int(fx1), int(fx2)):
-                if (row, c) in cover:
-                    ok = False
-                cover[(row, c)] = colour[0]
+        def to_input(m, callkw=callkw):
+            return {'fn': 'colorful', 'border': m.eval(B, model_completion=True).as_long(), 'kw': {k: v_ for k, v_ in callkw.items()}}
+        for p in paths:
+            if p.status != 'ok':
+                res.obligations += 1
+                r, m = check(p.pc)
+                res.violation('colorful', f'{cname}: {type(p.value).__name__}: {p.value}', to_input(m) if m is not None else {'fn': 'colorful', 'border': 0, 'kw': callkw})
+                continue
+            doc = p.value
+            r, m = check(p.pc)
+            bv = m.eval(B, model_completion=True).as_long()
+            bad = colourful_problems(doc, M, g, codes, full, bv, W, lambda t: m.eval(t, model_completion=True))
+            res.concrete('colourful-svg: every cell painted once in the colour of its ISO type', not bad,
+                         lambda bad=bad, m=m: res.violation('colorful', f'{cname}, border {bv}: {bad[:3]}', to_input(m)))
+    res.sample({'case': 'svg colourful', 'configurations': [c[0] for c in configs]})
+
+
+def colourful_problems(doc, M, g, codes, full, bv, W, ev):
+    side = 21 + 2 * bv
+    cover = {}
+    bad = []
+    for sg in doc['segments']:
+        vals = [z3.simplify(ev(t)) for t in sg[:3]]
+        fx1, fy, fx2 = (Fraction(vv.numerator_as_long(), vv.denominator_as_long()) for vv in vals)
+        row = int(fy - Fraction(1, 2))
+        for c in range(int(fx1), int(fx2)):
+            if (row, c) in cover:
+                bad.append(f'cell ({row},{c}) painted twice')
+            cover[(row, c)] = sg[4][0]
+    for fl in doc['fills']:
         for y in range(side):
             for x in range(side):
-                i, j = y - bv, x - bv
-                if 0 <= i < 21 and 0 <= j < 21:
-                    if (i, j) == (8, 12):
-                        continue
-                    want = kw[codes[g[i][j][0]][1 if M[i][j] else 0]]
-                else:
-                    want = kw['quiet_zone']
-                if cover.get((y, x)) != W._color_to_webcolor(want):
-                    ok = False
-        res.concrete('colourful-svg: every cell stroked once in the colour of its ISO type', ok, lambda: res.violation('colorful', f'border {bv}: cells mis-coloured', to_input(m)))
-    res.sample({'case': 'svg colourful', 'paths': len(paths)})
+                cover.setdefault((y, x), fl[4])
+    for y in range(side):
+        for x in range(side):
+            i, j = y - bv, x - bv
+            if 0 <= i < 21 and 0 <= j < 21:
+                if (i, j) == (8, 12):
+                    continue          # recorded C11 deviation
+                want = full[codes[g[i][j][0]][1 if M[i][j] else 0]]
+            else:
+                want = full['quiet_zone']
+            got = cover.get((y, x))
+            if want is None:
+                if got is not None:
+                    bad.append(f'cell ({y},{x}) painted {got}, configured transparent')
+            elif got is None or not svg_same_colour(got, W._color_to_webcolor(want) if isinstance(W._color_to_webcolor(want), str) else want):
+                bad.append(f'cell ({y},{x}) painted {got}, configured {want}')
+    return bad
 
 
 # ---------------------------------------------------------------- (c) concrete documents
@@ -827,7 +846,24 @@ def replay(viol):
         extra = set(cover) - {(inp['y'] + inp['incby'] * r, inp['x'] + c) for r in range(len(M)) for c in range(len(M[0]))}
         return bool(bad or extra), f'matrix_to_lines({M}, {inp["x"]}, {inp["y"]}, {inp["incby"]}) = {segs}: wrong cells {bad[:3]} extra {sorted(extra)[:3]}'
     if inp['fn'] == 'colorful':
-        return True, 'colourful SVG mis-coloured (symbolic run)'
+        from . import c09
+        q = segno.make('C10 colourful', version=1, error='L', mask=0, boost_error=False)
+        M = [[int(x) for x in r] for r in q.matrix]
+        kw = inp.get('kw') or dict(c09.COLORFUL)
+        out = io.BytesIO()
+        try:
+            q.save(out, kind='svg', border=inp['border'], **kw)
+            doc = READERS['svg'](out.getvalue().decode('utf-8'))
+        except Exception as e:
+            return True, f'{type(e).__name__}: {e}'
+        g = layout.classify(1)
+        codes = {'finder': ('finder_light', 'finder_dark'), 'separator': ('separator', 'separator'), 'timing': ('timing_light', 'timing_dark'),
+                 'alignment': ('alignment_light', 'alignment_dark'), 'format': ('format_light', 'format_dark'), 'version': ('version_light', 'version_dark'),
+                 'dark': ('dark_module', 'dark_module'), 'data': ('data_light', 'data_dark')}
+        dark, light = kw.get('dark', '#000'), kw.get('light', None)
+        full = {k: kw.get(k, dark if (k.endswith('_dark') or k == 'dark_module') else light) for k in c09.COLORFUL if k not in ('dark', 'light')}
+        bad = colourful_problems(doc, M, g, codes, full, inp['border'], W, lambda t: t)
+        return bool(bad), f'svg {kw} border {inp["border"]}: {bad[:3]}'
     fmt, M, border, scale = inp['fmt'], inp['matrix'], inp['border'], inp['scale']
     kw = dict(inp.get('kw') or {})
     out = io.BytesIO() if fmt in ('pdf', 'svg') else io.StringIO()
